@@ -7,6 +7,8 @@ import Mathlib.Tactic.Positivity
 import Mathlib.Tactic.NormNum
 import NssVerif.Lemmas.Cphot
 import NssVerif.Lemmas.Zsteps
+import NssVerif.Gen.Src.C06
+import NssVerif.Lemmas.CphotSrc
 
 /-!
 # C06 — Cherenkov photon yield conforms to the shower model at working precision
@@ -233,5 +235,172 @@ example : (c64 : Consts ℝ).ecrit < 1 * 1e8 := by
   norm_num at this ⊢; linarith
 
 end data
+
+/-! ### source tie: the closed-form pieces of the kernel, translated from the Python source of the working tree, ARE the model
+
+`Gen/Src/C06.lean` is regenerated from `cphotang.py` (and `detector_geometry.py`, `shower_properties.py`) on every run
+(harness/pytrans.py, harness/srcspecs/C06.py) from a `CphotAng` built in binary64 under the guarded dtype hook.  Methods
+that work on per-step arrays are translated per element.  The scalars the instance holds are inputs of the translated
+functions and are instantiated with the fields of the model's `Consts`.  `rfl` equalities hold for every `Scalar`
+instance (ℝ and `Float`); the others are proved at ℝ, the docstring says why. -/
+
+section srctie
+variable {α : Type} [Scalar α]
+
+/-- `CphotAng.theta_view` -/
+theorem src_thetaView (c : Consts α) (thetProp : α) :
+    Gen.Src.C06.thetaView thetProp c.radE c.zmax = thetaView c thetProp := by rfl
+
+/-- `CphotAng.theta_prop` -/
+theorem src_thetaProp (c : Consts α) (s z : α) :
+    Gen.Src.C06.thetaProp z s c.radE c.zmax = thetaProp c s z := by rfl
+
+/-- `delgram_vals = rhos * self.dL * 1e5` in `CphotAng.slant_depth`: the model's slant-depth increments -/
+theorem src_slantVal (c : Consts α) (zs : List α) :
+    slantVals c zs = (List.zipWith grammageRho zs (zs.map grammageX)).map
+      fun r => (Gen.Src.C06.slantVal c.dL r).delgram_vals := by rfl
+
+/-- `CphotAng.e0` -/
+theorem src_e0 (s : α) : Gen.Src.C06.e0 s = e0 s := by rfl
+
+/-- `CphotAng.cherenkov_threshold_angle` -/
+theorem src_cherenkovThresholdAngle (airN : α) :
+    Gen.Src.C06.cherenkovThresholdAngle airN = (eCthres airN, thetaC airN) := by rfl
+
+/-- `CphotAng.tracklen` -/
+theorem src_tracklen (e0v ecth s : α) : Gen.Src.C06.tracklen e0v ecth s = tracklen e0v ecth s := by rfl
+
+/-- `CphotAng.d_to_det` -/
+theorem src_dToDet (c : Consts α) (thetView thetPrp z : α) :
+    Gen.Src.C06.dToDet thetView thetPrp z c.pi c.radE = dToDet c thetView thetPrp z := by rfl
+
+/-- `CphotAng.cherenkov_area` (`dmax` is `DistStep[izRNmax]`): the expression `finish` uses for the Cherenkov area -/
+theorem src_cherenkovArea (c : Consts α) (ave dmax : α) :
+    Gen.Src.C06.cherenkovArea ave dmax c.pi = c.pi * Scalar.sq (Scalar.tan ave * 1e3 * dmax) := by rfl
+
+end srctie
+
+set_option linter.unusedSimpArgs false in
+/-- `CphotAng.grammage` for one altitude, whatever the uninitialised memory of its two `np.empty_like` arrays held.
+At ℝ only: the source fills the arrays under three masks (`z < 11`, `11 ≤ z < 25`, `25 ≤ z`) that cover the line
+because the order is total — for a NaN altitude the code returns uninitialised memory, the model its last branch.
+(The commutativity lemmas keep the proof intact when a product or sum of the source is reordered.) -/
+theorem src_grammage (z xUninit rhoUninit : ℝ) :
+    Gen.Src.C06.grammage z xUninit rhoUninit = (grammageX z, grammageRho z (grammageX z)) := by
+  unfold Gen.Src.C06.grammage grammageX grammageRho
+  by_cases h1 : z < 11
+  · have h2 : ¬ (25 ≤ z) := by linarith
+    have h3 : ¬ (11 ≤ z) := by linarith
+    simp [h1, h2, h3, mul_comm, mul_left_comm, add_comm, add_left_comm]
+  · by_cases h4 : z < 25
+    · have h2 : ¬ (25 ≤ z) := by linarith
+      have h3 : (11 ≤ z) := by linarith
+      simp [h1, h2, h3, h4, mul_comm, mul_left_comm, add_comm, add_left_comm]
+      norm_num
+    · have h2 : (25 ≤ z) := by linarith
+      simp [h1, h2, h4, mul_comm, mul_left_comm, add_comm, add_left_comm]
+
+/-- `CphotAng.valid_arrays` for one altitude step (the compress `x[mask]` read as "kept iff mask"): the step is kept
+exactly when the model's `validSeg` returns a segment, and then with the same eight values — whatever the uninitialised
+memory of `AirN` held.  At ℝ only: the source computes `t`, `s`, `RN`, `e2hill` under successively narrower masks with
+0 elsewhere (the model computes them unconditionally and tests afterwards), and spells 3, 2, 3/2, 0 as `dtype(3)`, … -/
+theorem src_validArrays (c : Consts ℝ) (z dg gs gz zz tp eshow airNUninit : ℝ) :
+    validSeg c (Scalar.log (eshow / c.ecrit)) z dg gs gz zz tp =
+      (let r := Gen.Src.C06.validArrays z dg gs gz zz tp eshow c.zmax c.ecrit airNUninit
+       if r.1 then some ⟨r.2.1, r.2.2.1, r.2.2.2.1, r.2.2.2.2.1, r.2.2.2.2.2.1, r.2.2.2.2.2.2.1, r.2.2.2.2.2.2.2.1,
+                          r.2.2.2.2.2.2.2.2⟩ else none) := by
+  unfold Gen.Src.C06.validArrays validSeg greisenN showerAge airIndex
+  by_cases hm : z ≤ c.zmax
+  · generalize (1.0 + 0.000296 * (gz / 1032.9414) * (273.2 / (204.0 + 0.091 * gz)) : ℝ) = A
+    by_cases h1 : Scalar.eqb A 1 = false
+    · by_cases h0 : Scalar.eqb A 0 = false
+      · simp [hm, h1, h0]
+        simp only [show (3.0:ℝ) = 3 by norm_num, show (2.0:ℝ) = 2 by norm_num, show (0.0:ℝ) = 0 by norm_num,
+          show (3/2:ℝ) = 1.5 by norm_num, show (1150.0:ℝ) = 1150 by norm_num, show (454.0:ℝ) = 454 by norm_num]
+        generalize (3 * (gs / 36.66) / (gs / 36.66 + 2 * Real.log (eshow / c.ecrit)) : ℝ) = S
+        generalize (if 0.31 / √(Real.log (eshow / c.ecrit)) * rexp (gs / 36.66 * (1 - 1.5 * Real.log S)) < 0 then (0:ℝ)
+          else 0.31 / √(Real.log (eshow / c.ecrit)) * rexp (gs / 36.66 * (1 - 1.5 * Real.log S))) = R
+        by_cases hP : (1 ≤ R ∨ S ≤ 1)
+        · simp [hP]
+        · simp [hP]
+      · simp [hm, h1, h0]
+    · simp [hm, h1]
+  · simp [hm]
+
+/-- `CphotAng.sphoton_yeild`, one (step, wavelength) element with the element of `aerosol_model`'s result as an input:
+the model's row of scaled photon yields is that element function over the wavelength constants.  At ℝ only: the source
+takes `np.power(400/wmean, 4)` (libm `pow`), the model squares twice. -/
+theorem src_sphotonYeild (c : Consts ℝ) (sg : Seg ℝ) :
+    spyRow c sg = zipWith4 (fun wm kap pyc a =>
+        Gen.Src.C06.sphotonYeild (thetaC sg.airN) sg.rN sg.delgram sg.zonZ sg.z sg.thetPrp pyc wm kap a)
+      c.wmean c.okappa c.pYieldCoeff (aerosolRow c sg.z sg.thetPrp) := by
+  have h4 : ∀ x : ℝ, x ^ (((4:ℕ):ℝ)) = x * x * (x * x) := by
+    intro x; rw [Real.rpow_natCast]; ring
+  unfold spyRow Gen.Src.C06.sphotonYeild
+  simp only [sq_eq, pow_eq, ofNat_eq, h4]
+
+/-- the 1-degree clamp as the source spells it (`radians(dtype(1)) if betaE < radians(1.0) else betaE`) is the model's
+`clampBeta`.  At ℝ only: the model writes the literal `1`, the source `1.0`. -/
+theorem src_clampBeta (β : ℝ) :
+    (if Scalar.ltb β (Scalar.radians (1.0 : ℝ)) then Scalar.radians (1.0 : ℝ) else β) = clampBeta β := by
+  unfold clampBeta
+  have : (Scalar.radians (1.0 : ℝ)) = Scalar.radians (@OfNat.ofNat ℝ 1 instOfNatOfScalar) := by
+    simp only [radians_eq]; norm_num
+  rw [this]
+
+/-- the straight-line head of `CphotAng.run` (`theta_view` inlined from its own source): clamped emergence angle, shower
+energy in GeV, viewing angle and its sine — what `runOn` / `eventSegs` start from.  At ℝ because of `src_clampBeta`. -/
+theorem src_runHead (c : Consts ℝ) (β alt e100 : ℝ) :
+    Gen.Src.C06.runHead β alt e100 c.radE c.zmax
+      = ⟨clampBeta β, e100 * 1e8, thetaView c (clampBeta β), Scalar.sin (thetaView c (clampBeta β))⟩ := by
+  unfold Gen.Src.C06.runHead thetaView
+  simp only [src_clampBeta]
+
+/-- head and tail of `CphotAng.run` on the path that reaches the final `return`, the sums of the step loop as inputs
+(`distance_to_detector` and its helpers inlined from their own source; `orbit_height` and `zmax` both instantiated with
+`c.zmax`, as `__init__` sets them): the pair `finish` returns — `0.5·photsum/CherArea` times the squared distance ratio
+at the clamped angle, and the angle in degrees.  At ℝ because of `src_clampBeta`. -/
+theorem src_runScaled (c : Consts ℝ) (detAlt β alt e100 photsum ave sig cherArea : ℝ) :
+    Gen.Src.C06.runScaled β alt e100 c.zmax c.radE c.zmax detAlt photsum ave sig cherArea
+      = (0.5 * photsum / cherArea * altScaling c detAlt (clampBeta β) alt, Scalar.degrees (ave + sig)) := by
+  unfold Gen.Src.C06.runScaled altScaling distanceToDetector
+  simp only [src_clampBeta]
+  rfl
+
+/-- the model's `finish` (everything `run` does after the cloud decision) is: the sums of the step loop, then the tail of
+`run` AS TRANSLATED FROM THE SOURCE (`cherenkov_area`, then the scaling to the detector altitude and the angle in
+degrees) applied to them.  `finishWith` (Lemmas/CphotSrc.lean) is `finish` with its last lines as a parameter. -/
+theorem src_finish (c : Consts ℝ) (detAlt β alt e100 thetView : ℝ) (segs : List (Seg ℝ)) (mask : List Bool) :
+    finish c detAlt (clampBeta β) alt (e100 * 1e8) thetView segs mask =
+      finishWith (fun photsum ave sig dmax =>
+          Gen.Src.C06.runScaled β alt e100 c.zmax c.radE c.zmax detAlt photsum ave sig
+            (Gen.Src.C06.cherenkovArea ave dmax c.pi))
+        c (e100 * 1e8) thetView segs mask := by
+  rw [finish_eq_finishWith]
+  congr 1
+  funext photsum ave sig dmax
+  rw [src_runScaled, src_cherenkovArea]
+
+/-- assembly: the model's `runOn` (= `CphotAng.run` for given valid segments) is the translated head of `run` (clamp,
+energy, viewing angle), the cloud decision and the step loop of the model, and the translated tail of `run` — so the
+theorems above about `run` / `runOn` (`beta_clamped`, `alt_scaling`, `density_nonneg`, …) are theorems about what the
+source's head and tail compute around the loop. -/
+theorem src_runOn (c : Consts ℝ) (detAlt β alt e100 : ℝ) (segs : List (Seg ℝ)) (cloud : Option ℝ) :
+    runOn c detAlt β alt e100 segs cloud =
+      (let hd := Gen.Src.C06.runHead β alt e100 c.radE c.zmax
+       let tail := fun photsum ave sig dmax =>
+         Gen.Src.C06.runScaled β alt e100 c.zmax c.radE c.zmax detAlt photsum ave sig
+           (Gen.Src.C06.cherenkovArea ave dmax c.pi)
+       match penultimate segs with
+       | none => ((0 : ℝ), (0 : ℝ))
+       | some pen =>
+         match cloud with
+         | none => finishWith tail c hd.Eshow hd.ThetView segs (segs.map fun _ => false)
+         | some h =>
+           if Scalar.ltb pen.z h then ((0 : ℝ), (0 : ℝ))
+           else finishWith tail c hd.Eshow hd.ThetView segs (segs.map fun sg => Scalar.ltb sg.z h)) := by
+  unfold runOn
+  simp only [src_runHead, src_finish]
+  cases penultimate segs <;> cases cloud <;> simp
 
 end C06
